@@ -75,7 +75,16 @@ func runC01Case(c *Ctx, n, t int, rep uint64) {
 	seed := c.Seed*1000003 + uint64(n)*10007 + uint64(t)*101 + rep
 	r := sched.Derive(seed, 1)
 	wit := map[string]interface{}{"n": n, "t": t, "case_seed": seed}
-	ce, err := NewCeremony(seed, n, t, world.RandomPolicy)
+	// every other ceremony is driven by operators who use the REST API (startDKG, getOperations,
+	// approveDKGParticipation, handleProcessedOperationJSON, proposeSign*, getSignatures)
+	viaHTTP := rep%2 == 1
+	// ... and one in six by operators who use the shipped dc4bc_cli binary (child process per command)
+	viaCLI := rep%6 == 5 && world.CLIBin() != ""
+	wit["operator_channel"] = map[bool]string{false: "node service", true: "REST API"}[viaHTTP]
+	if viaCLI {
+		wit["operator_channel"] = "dc4bc_cli binary"
+	}
+	ce, err := NewCeremonyWith(world.Options{N: n, T: t, Seed: seed, ViaHTTP: viaHTTP, ViaCLI: viaCLI}, world.RandomPolicy)
 	if err != nil {
 		c.Inconclusive("ceremony n=%d t=%d seed=%d: %v", n, t, seed, err)
 		return
@@ -204,6 +213,34 @@ func runC01Case(c *Ctx, n, t int, rep uint64) {
 	c.Add("placeholder_entries_seen", j.Empty)
 	c.Add("reconstruction_broadcasts", len(BoardMsgs(ce.W, ce.Round, EvSigRecon)))
 	c.Add("ceremonies", 1)
+	if viaCLI {
+		c.Add("ceremonies_driven_through_the_dc4bc_cli_binary", 1)
+		cliCalls := map[string]int{}
+		for _, nd := range ce.W.Nodes {
+			if nd.CLI != nil {
+				for k, v := range nd.CLI.Calls {
+					cliCalls[k] += v
+				}
+			}
+		}
+		for k, v := range cliCalls {
+			c.Add("cli_commands "+k, v)
+		}
+	}
+	if viaHTTP {
+		c.Add("ceremonies_driven_through_the_rest_api", 1)
+		calls := map[string]int{}
+		for _, nd := range ce.W.Nodes {
+			if nd.API != nil {
+				for k, v := range nd.API.Calls {
+					calls[k] += v
+				}
+			}
+		}
+		for k, v := range calls {
+			c.Add("api_calls "+k, v)
+		}
+	}
 	if j.Verified == 0 {
 		c.Violate("C01/no-signature-produced", fmt.Sprintf("n=%d t=%d: batches answered by >=t participants produced no signature anywhere", n, t), wit)
 		return
